@@ -382,6 +382,8 @@ fn select_n_nodes(
 ) -> Result<Nodes, ConsistencyError> {
     use rand::seq::IteratorRandom;
     let mut rng = rand::thread_rng();
+    #[cfg(datacake_verif)]
+    let mut rng = crate::verif::rng(&mut rng);
 
     let num_nodes_outside_dc = total_nodes
         - data_centers
